@@ -119,14 +119,14 @@ package tacquito
 //@   ensures[C04] len(data) < 8 ==> err != nil
 //@   ensures[C19] len(data) < 8 ==> typeOf(err) != *BadSecretErr
 //@   ensures[C19] full.AuthenStart(data) ==> ((typeOf(err) == *BadSecretErr) == overrun.AuthenStart(data))
+//@   taints[C18] data 3
+//@   ensures[C18] (taintkind(data, 1) && err == nil) ==> tainted(a.Data, 1)
+//@   ensures[C18] (taintkind(data, 2) && err == nil) ==> tainted(a.User, 2) && tainted(a.Port, 2) && tainted(a.RemAddr, 2) && tainted(a.Data, 2)
 //@   also
 //@   ghost f AuthenStart
 //@   requires wire.AuthenStart(f, data) && valid.AuthenStart(f) && fits.AuthenStart(f)
 //@   ensures[C01] err == nil && *a == f
 //@   ensures[C19] clean.AuthenStart(data)
-//@   taints[C18] data 3
-//@   ensures[C18] taintkind(data, 1) ==> tainted(a.Data, 1)
-//@   ensures[C18] taintkind(data, 2) ==> tainted(a.User, 2) && tainted(a.Port, 2) && tainted(a.RemAddr, 2) && tainted(a.Data, 2)
 
 //@ func (a *AuthenReply) Validate() (err error)
 //@   requires a != nil
@@ -176,14 +176,14 @@ package tacquito
 //@   ensures[C04] len(data) < 5 ==> err != nil
 //@   ensures[C19] len(data) < 5 ==> typeOf(err) != *BadSecretErr
 //@   ensures[C19] full.AuthenContinue(data) ==> ((typeOf(err) == *BadSecretErr) == overrun.AuthenContinue(data))
+//@   taints[C18] data 3
+//@   ensures[C18] (taintkind(data, 2) && err == nil) ==> tainted(a.UserMessage, 2)
+//@   ensures[C18] (taintkind(data, 1) && err == nil) ==> tainted(a.UserMessage, 1) && tainted(a.Data, 1)
 //@   also
 //@   ghost f AuthenContinue
 //@   requires wire.AuthenContinue(f, data) && valid.AuthenContinue(f) && fits.AuthenContinue(f)
 //@   ensures[C01] err == nil && *a == f
 //@   ensures[C19] clean.AuthenContinue(data)
-//@   taints[C18] data 3
-//@   ensures[C18] taintkind(data, 2) ==> tainted(a.UserMessage, 2)
-//@   ensures[C18] taintkind(data, 1) ==> tainted(a.UserMessage, 1) && tainted(a.Data, 1)
 
 // ---------------------------------------------------------------------------
 // accounting.go
@@ -500,6 +500,8 @@ package tacquito
 
 //@ func crypt(secret []byte, p *Packet) (err error)
 //@   requires p != nil && p.Header != nil
+//@   taints[C18] secret 4
+//@   ensures[C18] untainted(err)
 //@   requires len(p.Body) <= p.Header.Length
 //@   modifies p.Body[..], ghost.md5acc
 //@   ensures[C03] unchanged(*p.Header) && len(p.Body) == old(len(p.Body))
@@ -520,6 +522,8 @@ package tacquito
 
 //@ func (c *crypter) write(p *Packet) (n int, err error)
 //@   requires c != nil && c.Conn != nil
+//@   taints[C18] c.secret 4
+//@   ensures[C18] untainted(err)
 //@   requires p != nil ==> p.Header != nil
 //@   requires p != nil ==> len(p.Body) <= 4294967295
 //@   modifies p.Header.Length, p.Body[..], ghost.nwrites, ghost.written, ghost.md5acc
@@ -545,6 +549,9 @@ package tacquito
 //@ func (r *response) Reply(v EncoderDecoder) (n int, err error)
 //@   ghostinc replies
 //@   requires r != nil && r.crypter != nil && r.crypter.Conn != nil && r.loggerProvider != nil && v != nil
+//@   requires[C18] untainted(v)
+//@   taints[C18] r.crypter.secret 4
+//@   ensures[C18] untainted(err)
 //@   requires forall j int :: 0 <= j && j < len(r.writers) ==> r.writers[j] != nil
 //@   modifies r.header, ghost.nwrites, ghost.written, ghost.md5acc
 //@   ensures[C07] ghost.replies == old(ghost.replies) + 1
@@ -564,6 +571,9 @@ package tacquito
 
 //@ func (r *response) ReplyWithContext(ctx context.Context, v EncoderDecoder, writers ...Writer) (n int, err error)
 //@   requires r != nil && r.crypter != nil && r.crypter.Conn != nil && r.loggerProvider != nil && v != nil
+//@   requires[C18] untainted(v)
+//@   taints[C18] r.crypter.secret 4
+//@   ensures[C18] untainted(err)
 //@   requires forall j int :: 0 <= j && j < len(r.writers) ==> r.writers[j] != nil
 //@   modifies r.header, r.ctx, r.writers, ghost.nwrites, ghost.written, ghost.md5acc, ghost.replies
 //@   ensures[C07] ghost.replies == old(ghost.replies) + 1
@@ -576,6 +586,8 @@ package tacquito
 //@   ghostinc reads
 //@   ghostset armed 0
 //@   requires c != nil && c.Conn != nil && c.Reader != nil && !c.proxy
+//@   taints[C18] c.secret 4
+//@   ensures[C18] untainted(err)
 //@   requires[C17] ghost.armed == 1 || ghost.dead == 1
 //@   requires[C05] ghost.sync == 1
 //@   modifies ghost.inPos, ghost.nwrites, ghost.written, ghost.md5acc, ghost.sync
@@ -660,6 +672,7 @@ package tacquito
 //@ func (s *Server) handle(ctx context.Context, c *crypter, h Handler)
 //@   requires s != nil && s.loggerProvider != nil && ctx != nil && h != nil
 //@   requires c != nil && c.Conn != nil && c.Reader != nil && !c.proxy
+//@   taints[C18] c.secret 4
 //@   requires[C05] ghost.sync == 1
 //@   modifies ghost.inPos, ghost.nwrites, ghost.written, ghost.md5acc, ghost.gauge, ghost.armed, ghost.dead, ghost.reads, ghost.handled, ghost.replies, ghost.closed, ghost.sync, ghost.hcalls, ghost.authorStatus, ghost.authenPass, ghost.acctStatus, ghost.sinkWrites, ghost.sinkAtReply
 //@   ensures[C07,C17] ghost.closed == old(ghost.closed) + 1
@@ -688,6 +701,7 @@ package tacquito
 
 //@ func (s *Server) serve(ctx context.Context, conn net.Conn)
 //@   ghostinc spawned
+//@   ensures[C18] true
 //@   requires s != nil && s.loggerProvider != nil && s.SecretProvider != nil && ctx != nil && conn != nil && !s.proxy
 //@   requires[C05] ghost.sync == 1
 //@   modifies s.waitGroup.active, ghost.inPos, ghost.nwrites, ghost.written, ghost.md5acc, ghost.gauge, ghost.armed, ghost.dead, ghost.reads, ghost.handled, ghost.replies, ghost.closed, ghost.wgDones, ghost.sync, ghost.hcalls, ghost.authorStatus, ghost.authenPass, ghost.acctStatus, ghost.sinkWrites, ghost.sinkAtReply
